@@ -49,7 +49,9 @@ PARAM_KINDS = {
     "date-time": ({"type": "string", "format": "date-time"}, ["2020-01-02T03:04:05+00:00", "2021-06-07T08:09:10+02:00"]),
 }
 
-PARAM_NAMES = ["name", "userName", "user_name", "user-name", "X-Req-Id", "id", "type", "class", "date", "field", "2fa", "_x"]
+# the last four start like header names that OpenAPI tells generators to ignore (Accept, Content-Type, Authorization) but are ordinary parameters
+PARAM_NAMES = ["name", "userName", "user_name", "user-name", "X-Req-Id", "id", "type", "class", "date", "field", "2fa", "_x",
+               "Accept-Language", "Accept-Version", "Content-Type-Options", "Authorization-Context"]
 
 
 def param(name, loc, required, kind, at="op"):
@@ -153,6 +155,9 @@ RESP_KINDS = {
     "json-inline-typeless-a": (_j({"properties": {"id": {"type": "string"}, "revision": {"type": "integer"}}}), [_jb({"id": "w1", "revision": 3})]),
     "json-inline-typeless-b": (_j({"properties": {"id": {"type": "string"}, "location": {"type": "string"}}}), [_jb({"id": "w2", "location": "/w/2"})]),
     # YAML media types (the body below is valid YAML and valid JSON)
+    # JSON declared without any schema; a union whose second variant is an array of a model with renamed fields
+    "json-no-schema": ({"application/json": {}}, [_jb({"a": 1}), _jb([1, "x"])]),
+    "union-model-or-array": (_j({"oneOf": [R("Other"), {"type": "array", "items": R("Item")}]}), [_jb(ITEM_BODIES), _jb(OTHER_BODIES[1])]),
     "yaml-model": ({"application/yaml": {"schema": R("Item")}}, [("application/yaml", json.dumps(ITEM_BODIES[0]).encode(), ITEM_BODIES[0])]),
     # the whole body is a named enum: the annotated type is the enum class, not its base type
     "json-enum-ref": (_j(R("Shade")), [_jb("light"), _jb("dark-blue")]),
@@ -165,7 +170,8 @@ RESP_KINDS = {
               [("application/octet-stream", b"\x00\x01bin", {"$bytes": "AAFiaW4="})]),
     "image": ({"image/png": {"schema": {"type": "string", "format": "binary"}}}, [("image/png", b"\x89PNG", {"$bytes": "iVBORw=="})]),
     "json+text": ({"application/json": {"schema": R("Item")}, "text/plain": {"schema": {"type": "string"}}},
-                  [_jb(ITEM_BODIES[0]), ("text/plain; charset=utf-8", b"plain", "plain")]),
+                  [_jb(ITEM_BODIES[0]), ("text/plain; charset=utf-8", b"plain", "plain"),
+                   ("Application/JSON; charset=UTF-8", json.dumps(ITEM_BODIES[1]).encode(), ITEM_BODIES[1]), ("Text/Plain", b"plain2", "plain2")]),
     "text+csv+json": ({"text/plain": {"schema": {"type": "string"}}, "text/csv": {"schema": {"type": "string"}}, "application/json": {"schema": R("Item")}},
                       [("text/plain; charset=utf-8", b"plain", "plain"), ("text/csv; charset=utf-8", b"a,b", "a,b"), _jb(ITEM_BODIES[0])]),
     "pdf+png+json": ({"application/pdf": {"schema": {"type": "string", "format": "binary"}}, "image/png": {"schema": {"type": "string", "format": "binary"}},
